@@ -12,7 +12,9 @@ def add_faults(rng, case):
         pos = rng.randint(len(ops) // 2, len(ops) - 1)
         ops.insert(pos, {'k': 'reseq', 'n': rng.randint(1, 9), 'inst': rng.random() < 0.5})
     if rng.random() < 0.6:
-        ops.append({'k': 'reload', 'inflight': rng.random() < 0.7})
+        ops.append({'k': 'reload', 'inflight': rng.random() < 0.7,
+                    # in half of the reloads a report arrives on another thread while the buffered ones are replayed
+                    'race': '0x34F00100' if rng.random() < 0.5 else None})
         if rng.random() < 0.5:
             ops.append({'k': 'state', 'tx': 'metric', 'iface': 'classic', 'items': []})   # empty transaction: nothing new
     sched = mdibgen.fault_schedule(rng, len(ops))
